@@ -9,6 +9,8 @@ def reqTun : Tun :=
   { minK := DSGen.req_MIN_K, initSections := DSGen.req_INIT_NUM_SECTIONS, multiplier := DSGen.req_MULTIPLIER,
     lazy := DSGen.req_LAZY_COMPRESSION }
 
+def reqFlags : Flags := { iterSkipsEmpty := DSGen.req_ITER_SKIPS_EMPTY, nanRankRejected := DSGen.req_NAN_RANK_REJECTED }
+
 def reqRse : RseConsts :=
   { fixedNum := DSGen.req_FIXED_RSE_FACTOR_num, fixedDen := DSGen.req_FIXED_RSE_FACTOR_den,
     relNum := DSGen.req_REL_RSE_num, relDen := DSGen.req_REL_RSE_den }
@@ -85,7 +87,7 @@ def selftest : IO UInt32 := do
 
 def main (args : List String) : IO UInt32 := do
   match args with
-  | ["req"] => runDriver ({} : DState Float32) (stepLine reqTun secF32 reqRse)
+  | ["req"] => runDriver ({} : DState Float32) (stepLine reqTun secF32 reqRse reqFlags)
   | ["enum"] => enumMain
   | ["selftest"] => selftest
   | ["classify"] => classifyMain
